@@ -1,6 +1,7 @@
 package drivers
 
 import (
+	"strings"
 	"bytes"
 	"encoding/json"
 	"io"
@@ -190,6 +191,9 @@ func runIsolation(id int, c *isoCase) isoLine {
 				case "eofmid":
 					conns[k].Feed(req[:11])
 					conns[k].FeedErr(io.EOF)
+				case "eofbody": // the whole header and a part of the body, then the peer is gone
+					conns[k].Feed(req[:40])
+					conns[k].FeedErr(io.EOF)
 				}
 				continue
 			}
@@ -303,6 +307,15 @@ func runIsolation(id int, c *isoCase) isoLine {
 	return l
 }
 
+func hasTLSFault(fs []isoFault) bool {
+	for _, f := range fs {
+		if strings.HasPrefix(f.Kind, "tls") {
+			return true
+		}
+	}
+	return false
+}
+
 func Isolation(a Args) error {
 	out, err := NewOut(a.Out)
 	if err != nil {
@@ -322,7 +335,15 @@ func Isolation(a Args) error {
 		}
 		id++
 		os.WriteFile(a.Out+".current", line, 0644)
-		out.Emit(runIsolation(id, &c))
+		if hasTLSFault(c.Faults) {
+			var kinds []string
+			for _, f := range c.Faults {
+				kinds = append(kinds, f.Kind)
+			}
+			out.Emit(runTLSIsolation(id, kinds))
+		} else {
+			out.Emit(runIsolation(id, &c))
+		}
 		out.mu.Lock()
 		out.w.Flush()
 		out.mu.Unlock()
